@@ -264,3 +264,25 @@ theorem inv_init (n : Nat) : Inv ({ nkeys := n } : Metric V) :=
   ⟨rfl, by simp, by simp, by simp, by simp⟩
 
 end MtailVerif.Metric
+
+namespace MtailVerif.Metric
+variable {V : Type}
+
+/-- `RemoveDatum` at the right arity, on a metric satisfying the invariant -/
+theorem removeDatum_refines (hinj : ∀ a b : List Bytes, Key.encode a = Key.encode b → a = b)
+    (m : Metric V) (hi : Inv m) (l : List Bytes) (hl : l.length = m.nkeys) :
+    ∃ m', removeDatum m l = .ok m' ∧ Inv m' ∧ m'.lvs = eraseL l m.lvs ∧ m'.nkeys = m.nkeys := by
+  cases hf : findL l m.lvs with
+  | some lv =>
+    have hlk : lookup (Key.encode l) m.index = some lv.id := by
+      rw [hi.index_eq, lookup_map hinj, hf]; rfl
+    refine ⟨{ m with lvs := eraseL l m.lvs, index := erase (Key.encode l) m.index }, ?_,
+      inv_eraseL hinj m hi l, rfl, rfl⟩
+    simp only [removeDatum, hl, hlk, spliceOut_findL hi.ids_nodup hf]; simp
+  | none =>
+    have hlk : lookup (Key.encode l) m.index = none := by
+      rw [hi.index_eq, lookup_map hinj, hf]; rfl
+    refine ⟨m, ?_, hi, (eraseL_absent l _ hf).symm, rfl⟩
+    simp only [removeDatum, hl, hlk]; simp
+
+end MtailVerif.Metric
